@@ -430,7 +430,57 @@ fn c09_case(seed: u64, idx: u64, md: &mut Model, rep: &mut Report) {
             (Ok(x), Ok(y)) => if x != im || y != im { fail!("idmap-roundtrip", "value": desc.join(" "), "v1": hex(&b1), "v2": hex(&b2)); },
             (a, b) => fail!("idmap-roundtrip-error", "value": desc.join(" "), "v1": format!("{:?}", a.err().map(|e| e.to_string())), "v2": format!("{:?}", b.err().map(|e| e.to_string())), "bytes_v1": hex(&b1)),
         }
+        // the model of the IdMap codec (Codec/IdMapCodec.v) reads the same bytes to the same map and writes the same bytes
+        {
+            let pr = |m: &yrs::IdMap<String>| -> String {
+                let mut cs: Vec<String> = vec![]; let mut cur: Option<(u64, Vec<String>)> = None;
+                for (c, range, attrs) in m.iter().map(|(c, ar)| (c.get(), ar.range.clone(), ar.attrs.clone())) {
+                    let mut ats: Vec<String> = attrs.iter().map(|a| format!("{}=s{}", rawhex(a.name().as_bytes()), rawhex(a.value().as_bytes()))).collect(); ats.sort();
+                    let t = format!("{:x}..{:x}{{{}}}", range.start, range.end, ats.join(","));
+                    match cur.as_mut() { Some((cc, v)) if *cc == c => v.push(t), _ => { if let Some((cc, v)) = cur.take() { cs.push(format!("{:x}[{}]", cc, v.join(" "))); } cur = Some((c, vec![t])); } }
+                }
+                if let Some((cc, v)) = cur.take() { cs.push(format!("{:x}[{}]", cc, v.join(" "))); }
+                cs.join(";")
+            };
+            let m = md.ask(&format!("DEC idmap {}", hex(&b1)));
+            let (mv, _) = model_reply_value(&m);
+            if mv != format!("ok {}", pr(&im)) { disag.push(json!({"kind": "idmap decode", "model": m, "impl": pr(&im), "bytes": hex(&b1)})); }
+            let m2 = md.ask(&format!("DEC reenc_idmap {}", hex(&b1)));
+            if m2 != format!("ok {}", hex(&b1)) { disag.push(json!({"kind": "idmap encode", "model": m2, "impl": hex(&b1)})); }
+        }
         rep.count("attributed_id_maps");
+    }
+    // ---- foreign attributed id maps (what another implementation may write: touching ranges, unsorted ranges, the same attribution
+    //      twice in one list): whatever decodes must survive encode + decode unchanged
+    for round in 0..3 {
+        // (the third one is fixed: Codec/IdMapCases.v D3, ranges whose attribute lists repeat an attribution)
+        let mut b = vec![]; b.write_var(1u32); b.write_var(r.range(1, 9)); let nr = r.range(1, 5); b.write_var(nr as u32);
+        let (mut defined, mut names_defined) = (0u32, 0u32);
+        let mut clock = r.below(4) as u32;
+        for _ in 0..nr {
+            let len = r.range(1, 3) as u32; b.write_var(clock); b.write_var(len); clock = if r.chance(1, 4) { clock.saturating_sub(1) } else { clock + len + r.below(2) as u32 };
+            let na = r.range(1, 3); b.write_var(na as u32);
+            for _ in 0..na {
+                let id = r.below(defined as u64 + 1).min(3) as u32;
+                if id == defined && defined < 3 { b.write_var(id); let nm = r.below(names_defined as u64 + 1).min(1) as u32; b.write_var(nm); if nm == names_defined { b.write_string(["a", "b"][nm as usize]); names_defined += 1; } Any::String(["x", "y", "z"][defined as usize].into()).encode(&mut b); defined += 1; }
+                else { b.write_var(id.min(defined.saturating_sub(1))); }
+            }
+        }
+        if round == 2 { b = unhex("01010402010200000161770178010077017a03010200020077017904010200000101020000"); }
+        if let Ok(x) = yrs::IdMap::<String>::decode_v1(&b) {
+            rep.count("foreign_id_maps_decoded");
+            let (e1, e2) = (x.encode_v1(), x.encode_v2());
+            match (yrs::IdMap::<String>::decode_v1(&e1), yrs::IdMap::<String>::decode_v2(&e2)) {
+                (Ok(y1), Ok(y2)) => if y1 != x || y2 != x { fail!("decoded-idmap-does-not-round-trip", "foreign_bytes": hex(&b), "reencoded": hex(&e1), "what": "decode(encode(x)) != x for an id map x obtained by decoding"); },
+                (a, c) => fail!("decoded-idmap-cannot-be-read-back", "foreign_bytes": hex(&b), "v1": format!("{:?}", a.err().map(|e| e.to_string())), "v2": format!("{:?}", c.err().map(|e| e.to_string()))),
+            }
+            let m = md.ask(&format!("DEC reenc_idmap {}", hex(&b)));
+            if m != format!("ok {}", hex(&e1)) { disag.push(json!({"kind": "foreign idmap re-encode", "model": m, "impl": hex(&e1), "bytes": hex(&b)})); }
+        } else {
+            rep.count("foreign_id_maps_rejected");
+            let m = md.ask(&format!("DEC idmap {}", hex(&b)));
+            if m.starts_with("ok") { disag.push(json!({"kind": "foreign idmap outcome", "model": m, "impl": "err", "bytes": hex(&b)})); }
+        }
     }
     // ---- IdSet / StateVector / Snapshot / sticky / awareness / messages
     let ds = rand_idset(&mut r); let sv = rand_sv(&mut r); let snap = Snapshot::new(sv.clone(), ds.clone());
@@ -446,6 +496,16 @@ fn c09_case(seed: u64, idx: u64, md: &mut Model, rep: &mut Report) {
             if mv != format!("ok {}", $pr(&$v)) || rest != "0" { disag.push(json!({"kind": format!("dec {}", $name), "model": m, "impl": $pr(&$v), "bytes": hex(&b1)})); }
             let m2 = md.ask(&format!("DEC reenc_{} {}", $mdcmd, hex(&b1)));
             if $name != "snapshot" && m2 != format!("ok {}", hex(&b1)) { disag.push(json!({"kind": format!("reenc {}", $name), "model": m2, "bytes": hex(&b1)})); }
+            // the lib0 v2 form (Codec/WireV2.v): same value, and the model writes the bytes the implementation wrote (state vectors and
+            // snapshots are written in hash order by the implementation: their bytes are compared through the decoded value only)
+            if matches!($name, "idset" | "sv" | "snapshot" | "sticky") {
+            let m = md.ask(&format!("DEC {}2 {}", $mdcmd, hex(&b2)));
+            let (mv, rest) = model_reply_value(&m);
+            if mv != format!("ok {}", $pr(&$v)) || rest != "0" { disag.push(json!({"kind": format!("dec v2 {}", $name), "model": m, "impl": $pr(&$v), "bytes": hex(&b2)})); }
+            let m2 = md.ask(&format!("DEC reenc_{}2 {}", $mdcmd, hex(&b2)));
+            if $name != "snapshot" && $name != "sv" && m2 != format!("ok {}", hex(&b2)) { disag.push(json!({"kind": format!("reenc v2 {}", $name), "model": m2, "bytes": hex(&b2)})); }
+            rep.count("small_wire_types_v2_compared_with_model");
+            }
         }
         rep.count(&format!("{}s", $name));
     }} }
@@ -630,14 +690,14 @@ fn seeds(seed: u64, idx: u64) -> Seeds {
     let mut multi = vec![]; for m in &msgs { multi.extend(m.encode_v1()); }
     Seeds { per_entry: vec![
         ("update_v1", u1.clone(), "update"), ("update_v2", { let mut v = p.upd2.clone(); for u in u1.iter() { if let Ok(x) = Update::decode_v1(u) { v.push(x.encode_v2()); } } v }, "update2"),
-        ("sv_v1", svs.iter().map(|x| x.encode_v1()).collect(), "sv"), ("sv_v2", svs.iter().map(|x| x.encode_v2()).collect(), ""),
+        ("sv_v1", svs.iter().map(|x| x.encode_v1()).collect(), "sv"), ("sv_v2", svs.iter().map(|x| x.encode_v2()).collect(), "sv2"),
         ("snapshot_v1", idsets.iter().zip(svs.iter()).map(|(d, s)| Snapshot::new(s.clone(), d.clone()).encode_v1()).collect(), "snapshot"),
-        ("snapshot_v2", idsets.iter().zip(svs.iter()).map(|(d, s)| Snapshot::new(s.clone(), d.clone()).encode_v2()).collect(), ""),
-        ("idset_v1", idsets.iter().map(|x| x.encode_v1()).collect(), "idset"), ("idset_v2", idsets.iter().map(|x| x.encode_v2()).collect(), ""),
-        ("idmap_v1", idsets.iter().map(|x| yrs::IdMap::<String>::from_set(x.clone(), vec![yrs::ContentAttribute::new("author", "me".to_string())]).encode_v1()).collect(), ""),
+        ("snapshot_v2", idsets.iter().zip(svs.iter()).map(|(d, s)| Snapshot::new(s.clone(), d.clone()).encode_v2()).collect(), "snapshot2"),
+        ("idset_v1", idsets.iter().map(|x| x.encode_v1()).collect(), "idset"), ("idset_v2", idsets.iter().map(|x| x.encode_v2()).collect(), "idset2"),
+        ("idmap_v1", idsets.iter().enumerate().map(|(i, x)| { let mut m = yrs::IdMap::<String>::from_set(x.clone(), vec![yrs::ContentAttribute::new("author", "me".to_string())]); if i % 2 == 1 { m.insert(yrs::block::BlockRange::new(ID::new(ClientID::new(7), 3), 9), vec![yrs::ContentAttribute::new("author", "you".to_string()), yrs::ContentAttribute::new("kind", "me".to_string())]); } m.encode_v1() }).collect(), "idmap"),
         ("idmap_v2", idsets.iter().map(|x| yrs::IdMap::<String>::from_set(x.clone(), vec![yrs::ContentAttribute::new("author", "me".to_string())]).encode_v2()).collect(), ""),
         ("any", anys, "any"),
-        ("sticky_v1", stickies.iter().map(|x| x.encode_v1()).collect(), "sticky"), ("sticky_v2", stickies.iter().map(|x| x.encode_v2()).collect(), ""),
+        ("sticky_v1", stickies.iter().map(|x| x.encode_v1()).collect(), "sticky"), ("sticky_v2", stickies.iter().map(|x| x.encode_v2()).collect(), "sticky2"),
         ("awareness", aws.iter().map(|x| x.encode_v1()).collect(), "awareness"),
         ("message", msgs.iter().map(|x| x.encode_v1()).collect(), "message"),
         ("message_reader", vec![multi], ""),
